@@ -2128,11 +2128,71 @@ def encode_threads(res, rng, idx):
             return
 
 
+# ------------------------------------------------------------------------------
+# `as_dict()` gives a plain copy: what a component does to that copy (the agent
+# appends to `pre_exec`, fills `environment` ...) must neither change the
+# description it came from nor the descriptions created afterwards
+#
+def as_dict_aliasing(res, rng):
+    kind = rng.choice(['task', 'task', 'pilot', 'slot'])
+    verified = False
+    if kind == 'task':
+        mk = lambda: rp.TaskDescription({'executable': '/bin/true'})
+        verified = rng.random() < 0.5
+    elif kind == 'pilot':
+        mk = lambda: rp.PilotDescription({'resource': 'local.localhost',
+                                          'cores': 2, 'runtime': 5})
+    else:
+        mk = lambda: m_rc.Slot(cores=[1], node_index=0, node_name='n0')
+    try:
+        pristine = jsonable(mk().as_dict())
+        obj = mk()
+        if verified:
+            obj.verify()
+        before = jsonable(obj.as_dict())
+        d = obj.as_dict()
+        touched = list()
+        for k, v in d.items():
+            if isinstance(v, list) and not v:
+                v.append('left-by-a-component'); touched.append(k)
+            elif isinstance(v, dict) and not v:
+                v['left-by-a-component'] = 1;    touched.append(k)
+        res.count('as_dict_copies_modified')
+        after = jsonable(obj.as_dict())
+        fresh = jsonable(mk().as_dict())
+    except Exception as e:
+        res.violation('as-dict-aliasing/raised', repr(e), {'kind': kind})
+        return
+    ctx = {'kind': kind, 'verified': verified, 'touched': touched}
+    if after != before:
+        diff = {k: (before.get(k), after.get(k)) for k in after
+                if after.get(k) != before.get(k)}
+        res.violation('as-dict-copy-shares-state', 'changing the dict which '
+                      'as_dict() returned changed the %s description: %s'
+                      % (kind, diff), ctx)
+    elif fresh != pristine:
+        diff = {k: (pristine.get(k), fresh.get(k)) for k in fresh
+                if fresh.get(k) != pristine.get(k)}
+        res.violation('as-dict-copy-shares-defaults', 'after changing a dict '
+                      'which as_dict() returned, a NEW %s description is '
+                      'born with %s' % (kind, diff), ctx)
+
+
 def run(ctx):
 
     res  = Result()
     _setup(res)
     base = dict(_EVALS)
+
+    rng = ctx.rng('as-dict')
+    for i in range(ctx.n(400, 20000)):
+        as_dict_aliasing(res, rng)
+        if len(res.violations) > 5:
+            break
+    if res.violations:
+        # the class-level defaults of this process are changed now: nothing
+        # which follows would mean anything
+        return res
 
     rng = ctx.rng('encode-threads')
     for i in range(ctx.n(320, 16000)):
